@@ -430,6 +430,9 @@ impl TypeSerialize {
     }
     #[doc(hidden)]
     pub fn serialize(&mut self) -> Result<()> {
+        // Start from scratch: the header is rebuilt from the table and the argument list, so that
+        // serializing a builder a second time does not emit the previous header again.
+        self.result.clear();
         leb128_encode(&mut self.result, self.type_table.len() as u64)?;
         self.result.append(&mut self.type_table.concat());
 
